@@ -678,6 +678,7 @@ func oracles(c *caseJ, out *runOut, we *wafEnv, tx2 *corazawaf.Transaction, preT
 	var fails []vh.OracleFailure
 	bad := func(key, what string) { fails = append(fails, vh.OracleFailure{Key: key, What: what, Case: c}) }
 	prev := obsJ{}
+	hadErr := false // an earlier call already reported a failure to the caller
 	for i, k := range c.Calls {
 		o := out.obs[i]
 		switch k.K {
@@ -691,13 +692,13 @@ func oracles(c *caseJ, out *runOut, we *wafEnv, tx2 *corazawaf.Transaction, preT
 				for _, s := range c.PreTmp {
 					spill -= s
 				}
-				if spill+o.MemLen != o.Len && prev.Len+prev.MemLen == prevStored(prev, c) {
+				if spill+o.MemLen != o.Len && !hadErr {
 					bad("c20-write-silent-loss", fmt.Sprintf("call %d: WriteRequestBody returned no error but %d bytes are stored for a buffer length of %d", i, spill+o.MemLen, o.Len))
 				}
 			}
 			fallthrough
 		case "p":
-			processed := prev.Phase == 1 && o.Phase == 2
+			processed := prev.Phase == 1 && o.Phase == 2 && o.Len > 0
 			// a failed read of the spilled body is never taken for an inspected body
 			if processed && hasFault(c, out, i, "hswap") && c.Cfg.Proc != "none" && prev.Spilled || (processed && k.K == "w" && hasFault(c, out, i, "hswap") && c.Cfg.Proc != "none") {
 				if !o.RbErr || !o.RbPErr || o.P2 != prev.P2+1 || !o.E || !contains(o.Logs, "LgProc") {
@@ -745,6 +746,7 @@ func oracles(c *caseJ, out *runOut, we *wafEnv, tx2 *corazawaf.Transaction, preT
 			}
 		}
 		prev = o
+		hadErr = hadErr || o.Err
 	}
 	at := len(c.Calls)
 	// faults that hit Close come back from Close
@@ -783,8 +785,6 @@ func oracles(c *caseJ, out *runOut, we *wafEnv, tx2 *corazawaf.Transaction, preT
 	}
 	return fails
 }
-
-func prevStored(prev obsJ, c *caseJ) int { return prev.Len + prev.MemLen } // placeholder guard: always true
 
 func faultLimit(c *caseJ, at int) int64 {
 	for _, f := range c.Faults {
@@ -1032,10 +1032,10 @@ func genShape(r *rand.Rand, i int) shape {
 		s.cfg.Mem = int64(n + 100)
 		s.kind += "/memory"
 	case 1:
-		s.cfg.Mem = 0
+		s.cfg.Mem = 1
 		s.kind += "/disk"
 	default:
-		s.cfg.Mem = int64(r.Intn(n + 1))
+		s.cfg.Mem = int64(1 + r.Intn(n+1))
 		s.kind += "/disk"
 	}
 	// limit: far, or hit (reject / partial)
